@@ -4,6 +4,7 @@ import os, sys, json, importlib.util
 V = os.path.dirname(os.path.dirname(os.path.abspath(__file__))); sys.path.insert(0, os.path.join(V, 'tools'))
 IDS = ['C%02d' % i for i in range(1, 21)]
 NOT_APPLICABLE = {  # property -> reason, used only while no harness/<id>/spec.py exists (or the spec sets CLAIMED = False)
+ 'C14': 'not applicable to solver-based checking of the real code within reach: the property is about io.c orchestrating fd_entries, streams, operations, sources, groups and several queues driven by kernel readiness (2800 lines, 66 block literals, every step a hop through the queue machinery); the byte-accounting kernel (_dispatch_operation_perform / _deliver_data) is entangled with channel, fd_entry, data and queue objects and could not be isolated soundly in the time available (see DESIGN.md section 4)',
 }
 PENDING = 'no solver harness is registered for this property in the committed tree yet (framework under construction; see DESIGN.md section 3 for the planned encoding)'
 def main():
